@@ -103,6 +103,8 @@ def _lib_from_corpus(rng, pid_pool):
         spec["goals"] = [{"monom": g, "kind": "raw"} for g in e["goals"] if "*" not in g][:3]
         spec["invariants"] = True
         spec["force_cyclic"] = False
+        # invariants among *rounded* closed forms are meaningless: no numeric-root options here
+        spec["options"] = {k: v for k, v in spec["options"].items() if not k.startswith("numeric")}
     elif _is_guarded(path) and rng.random() < 0.3:
         spec["goals"] = [{"monom": g["monom"], "kind": "after_loop"} for g in goals if g.get("kind") == "raw"][:2] or goals
     return spec
@@ -810,9 +812,12 @@ def _variants(case, bad_op):
             c["ops"][i].pop("between")
             yield c
     # drop single ops that are not needed by later ops of the same session (goals, files)
+    inv_sids = {o["sid"] for o in ops if o["step"] == "invariants"}
     for i, o in enumerate(ops):
         if i == bad_op:
             continue
+        if o["sid"] in inv_sids and o["step"].startswith("goal:"):
+            continue      # the invariants step computes with the closed forms of these goals
         if o["step"].startswith(("goal:", "file:")) or o["step"] == "invariants":
             c = copy.deepcopy(case)
             del c["ops"][i]
